@@ -288,6 +288,9 @@ func c06Run(env *c06Env, kind string, ops []c06Op) (string, string) {
 	}
 	hashKeyed := kind == "simple" || kind == "indexed" || kind == "multi" || strings.HasPrefix(kind, "temporal-adapter")
 	var lastRet, lastRef, lastHm any
+	// the stores handed to Merge stay alive: what later happens to the receiver must not show in them
+	var sources []factstore.FactStore
+	var sourceContent []string
 	for _, op := range ops {
 		switch op.kind {
 		case "add":
@@ -317,6 +320,8 @@ func c06Run(env *c06Env, kind string, ops []c06Op) (string, string) {
 			for _, a := range atoms {
 				src.Add(a)
 			}
+			sources = append(sources, src)
+			sourceContent = append(sourceContent, strings.Join(atomKeys(mg.Atoms(src)), "|"))
 			st.s.Merge(src)
 			sorted := append([]ast.Atom{}, atoms...)
 			for _, a := range sorted {
@@ -327,6 +332,11 @@ func c06Run(env *c06Env, kind string, ops []c06Op) (string, string) {
 				src.GetFacts(ast.NewQuery(p), func(a ast.Atom) error { hm.merge(a); return nil })
 			}
 			lastRet, lastRef, lastHm = nil, nil, nil
+		}
+	}
+	for i, src := range sources {
+		if now := strings.Join(atomKeys(mg.Atoms(src)), "|"); now != sourceContent[i] {
+			return "merge-source-changed", fmt.Sprintf("the store that was the argument of Merge #%d changed afterwards: it held {%s} and now holds {%s}", i+1, sourceContent[i], now)
 		}
 	}
 	// observers
@@ -412,7 +422,7 @@ func c06(r *rt.Run) {
 	r.Assumptions = []string{
 		"reference: Go map keyed by the structural key of the atom; wrappers: read-only part + write part, Remove acts on the write part (documented)",
 		"predicates whose atoms were all removed may still be listed; EstimateFactCount exact for plain stores, within [|set|,|read|+|write|] for merged/teeing",
-		"observers run in every reached state (every prefix is a node); no state deduplication",
+		"observers run in every reached state (every prefix is a node); no state deduplication; the stores passed to Merge are kept and must be unchanged at the end of the history",
 	}
 	envFull := c06MakeEnv(c06U)
 	envSmall := c06MakeEnv(c06USmall)
